@@ -88,6 +88,13 @@ def main():
     if only:
         ss = [s for s in ss if s[0] in only]
     random.Random(seed).shuffle(ss)
+    seen = set()
+    for f in os.environ.get("CAMPAIGN_DONE", "").split(","):
+        if f and os.path.exists(f):
+            for l in open(f):
+                m = re.search(r"(\S+\.go:\d+: `.*` -> `.*`)", l)
+                if m:
+                    seen.add(m.group(1))
     done = 0
     for rel, ln, a0, a1, rep, oi in ss:
         if done >= maxn:
@@ -102,6 +109,8 @@ def main():
             lines[ln] = old[:a0] + rep + old[a1:]
             open(p, "w").write("\n".join(lines))
             desc = f"{rel}:{ln+1}: `{old.strip()}` -> `{lines[ln].strip()}`"
+            if desc in seen:
+                continue
             rc, out = run(["go", "build", "./..."], repo, 120)
             if rc != 0:
                 continue
